@@ -50,19 +50,55 @@ def _loop_level(body):
         stack.extend(ast.iter_child_nodes(n))
 
 
+FALSE = [frozenset()]
+
+
+def _is_false(cn) -> bool:
+    return any(len(c) == 0 for c in cn)
+
+
+def _or_cnf(a, b):
+    if _is_false(a):
+        return b
+    if _is_false(b):
+        return a
+    out = []
+    for x in a:
+        for y in b:
+            c = x | y
+            # drop tautologies (p | !p)
+            if any(l.neg() in c for l in c):
+                continue
+            if c not in out:
+                out.append(c)
+            if len(out) > norm.MAX_CLAUSES:
+                return []  # give up: no information
+    return out
+
+
+def block_fallthrough(stmts, ctx) -> list[frozenset]:
+    """CNF of the condition under which control falls out of the end of the block
+    (FALSE if it cannot).  Only guard exits contribute; everything else is TRUE."""
+    if terminates(stmts):
+        return FALSE
+    out: list[frozenset] = []
+    for st in stmts:
+        out = out + fallthrough(st, ctx)
+    return out
+
+
 def fallthrough(st, ctx) -> list[frozenset]:
     """Clauses that hold after statement st when control falls through it."""
     if isinstance(st, ast.Assert):
         return norm.cnf(st.test, True, ctx)
     if isinstance(st, ast.If):
-        bt, et = terminates(st.body), terminates(st.orelse)
-        if bt and not et:
-            out = norm.cnf(st.test, False, ctx)
-            if len(st.orelse) == 1 and isinstance(st.orelse[0], ast.If):
-                out = out + fallthrough(st.orelse[0], ctx)
-            return out
-        if et and not bt:
-            return norm.cnf(st.test, True, ctx)
+        fb = block_fallthrough(st.body, ctx)
+        fe = block_fallthrough(st.orelse, ctx) if st.orelse else []
+        a = FALSE if _is_false(fb) else norm.cnf(st.test, True, ctx) + fb
+        b = FALSE if _is_false(fe) else norm.cnf(st.test, False, ctx) + fe
+        if not _is_false(fb) and not fb and not _is_false(fe) and not fe:
+            return []  # neither branch constrains anything
+        return _or_cnf(a, b)
     return []
 
 
@@ -120,11 +156,11 @@ def pc(node, stop=None) -> list[frozenset]:
             if field == "body":
                 clauses += norm.cnf(parent.test, True, node)
         elif isinstance(parent, ast.ExceptHandler):
-            clauses.append(frozenset([Lit("except " + "|".join(handler_types(parent)), True)]))
+            clauses.append(frozenset([Lit("EXCEPT(" + ", ".join(handler_types(parent)) + ")", True)]))
         elif isinstance(parent, ast.Try) and field == "orelse":
-            clauses.append(frozenset([Lit("try-else", True)]))
+            clauses.append(frozenset([Lit("TRY_ELSE", True)]))
         elif isinstance(parent, ast.match_case):
-            clauses.append(frozenset([Lit("case " + ast.unparse(parent.pattern), True)]))
+            clauses.append(frozenset([Lit("CASE(" + repr(ast.unparse(parent.pattern)) + ")", True)]))
         n = parent
     # dedupe preserving order
     seen = set()
@@ -133,7 +169,66 @@ def pc(node, stop=None) -> list[frozenset]:
         if c not in seen:
             seen.add(c)
             out.append(c)
-    return out
+    return simplify(out)
+
+
+def _eq_parts(text: str):
+    """('lhs', 'const') for a literal text of the form `lhs == CONST` (dotted name or literal constant)."""
+    try:
+        e = ast.parse(text, mode="eval").body
+    except SyntaxError:
+        return None
+    if isinstance(e, ast.Compare) and len(e.ops) == 1 and isinstance(e.ops[0], (ast.Eq, ast.Is)):
+        r = e.comparators[0]
+        if isinstance(r, ast.Constant) or (isinstance(r, ast.Attribute) and isinstance(r.value, ast.Name) and r.attr.isupper()):
+            return ast.unparse(e.left), ast.unparse(r)
+    return None
+
+
+def simplify(clauses):
+    """Unit propagation.  A unit (E == C2) also satisfies !(E == C1) for a different constant C1."""
+    clauses = list(clauses)
+    for _ in range(8):
+        units_ = {next(iter(c)) for c in clauses if len(c) == 1}
+        eqs = {}
+        for u in units_:
+            if u.pos:
+                p = _eq_parts(u.text)
+                if p:
+                    eqs[p[0]] = p[1]
+        changed = False
+        out = []
+        for c in clauses:
+            if len(c) <= 1:
+                out.append(c)
+                continue
+            sat = False
+            keep = set()
+            for l in c:
+                if l in units_:
+                    sat = True
+                    break
+                p = _eq_parts(l.text)
+                if p and p[0] in eqs and eqs[p[0]] != p[1]:
+                    if not l.pos:
+                        sat = True
+                        break
+                    continue  # (E == C1) is false given (E == C2): drop the literal
+                if l.neg() in units_:
+                    continue
+                keep.add(l)
+            if sat:
+                changed = True
+                continue
+            fc = frozenset(keep)
+            if fc != c:
+                changed = True
+            if fc not in out:
+                out.append(fc)
+        clauses = out
+        if not changed:
+            break
+    return clauses
 
 
 def units(clauses) -> list[Lit]:
@@ -163,3 +258,43 @@ def has_lit(clauses, pattern: str, pos: bool, binds: dict | None = None):
 
 def implied_false(clauses) -> bool:
     return any(len(c) == 0 for c in clauses)
+
+
+def _exit_kinds(st) -> set[str]:
+    """Kinds of abrupt exits inside a statement (not descending into nested defs / loops for break/continue)."""
+    out = set()
+    stack = [st]
+    while stack:
+        n = stack.pop()
+        if isinstance(n, ast.Raise):
+            out.add("raise")
+        elif isinstance(n, ast.Return):
+            out.add("return")
+        elif isinstance(n, ast.Continue):
+            out.add("continue")
+        elif isinstance(n, ast.Break):
+            out.add("break")
+        if isinstance(n, (ast.FunctionDef, ast.AsyncFunctionDef, ast.Lambda, ast.ClassDef)) and n is not st:
+            continue
+        stack.extend(ast.iter_child_nodes(n))
+    return out
+
+
+def guard_clauses(node):
+    """[(clause, kinds)] contributed to pc(node) by earlier sibling statements (guard exits):
+    kinds = the abrupt-exit kinds inside that sibling ({'raise'} = another rejection tested first)."""
+    out = []
+    n = node
+    while n is not None and not isinstance(n, (ast.stmt, ast.ExceptHandler)):
+        n = n.parent
+    while n is not None and not isinstance(n, (ast.FunctionDef, ast.AsyncFunctionDef, ast.Module, ast.ClassDef, ast.Lambda)):
+        blk = _block_of(n) if isinstance(n, ast.stmt) else None
+        if blk is not None:
+            for sib in blk[: blk.index(n)]:
+                cl = fallthrough(sib, node)
+                if cl:
+                    kinds = _exit_kinds(sib)
+                    for c in cl:
+                        out.append((c, kinds))
+        n = n.parent
+    return out
